@@ -340,3 +340,42 @@ func init() {
 	}
 }
 
+
+func init() {
+	// narrow: arithmetic in uint8/uint16 whose result is compared (possible wrap-around in a guard)
+	debugHooks["narrow"] = func(p *ir.Program) {
+		for _, short := range []string{"pkg/packet/bgp", "pkg/packet/mrt", "pkg/packet/bmp", "pkg/packet/rtr", "pkg/zebra"} {
+			for _, fn := range p.FuncsIn(short) {
+				for _, b := range fn.Blocks {
+					for _, in := range b.Instrs {
+						bo, ok := in.(*ssa.BinOp)
+						if !ok {
+							continue
+						}
+						bt, ok := bo.Type().Underlying().(*types.Basic)
+						if !ok || bt.Kind() != types.Uint8 && bt.Kind() != types.Uint16 {
+							continue
+						}
+						switch bo.Op.String() {
+						case "+", "*", "<<", "-":
+						default:
+							continue
+						}
+						cmp := false
+						for _, ref := range *bo.Referrers() {
+							if c2, ok := ref.(*ssa.BinOp); ok {
+								switch c2.Op.String() {
+								case "<", "<=", ">", ">=", "==", "!=":
+									cmp = true
+								}
+							}
+						}
+						if cmp {
+							fmt.Println(p.InstrPos(bo), ir.FuncKey(fn), bo.String())
+						}
+					}
+				}
+			}
+		}
+	}
+}
